@@ -119,6 +119,20 @@ func (f *frame) specEnv(st *State, at *ssa.BasicBlock, overrides map[string]SV) 
 			}()
 		}
 	}
+	// iterBound(n): the allocation counter at the head of loop n in the iteration being executed (a plain integer: what
+	// the iteration allocates lies at or above it, everything older below; usable in rebind expressions and in the
+	// invariants of the loops nested in loop n)
+	for _, li := range f.loops {
+		if li.entryState != nil {
+			if env.LoopEntry == nil {
+				env.LoopEntry = map[string]HeapView{}
+			}
+			env.LoopEntry[fmt.Sprint(li.ordinal)] = li.entryState
+		}
+		if li.iterNext != "" {
+			env.Vars[fmt.Sprintf("#iterbound%d", li.ordinal)] = SV{Term: li.iterNext, Typ: types.Typ[types.Int]}
+		}
+	}
 	for k, v := range overrides {
 		env.Vars[k] = v
 	}
@@ -250,6 +264,19 @@ func (f *frame) headerPhiOverrides(li *loopInfo, pick func(phi *ssa.Phi) (Val, b
 		if phi.Comment == "rangeindex" || (phi.Comment == "" && strings.HasPrefix(li.header.Comment, "rangeindex")) {
 			// #i = number of completed iterations = index of the next element
 			ov["#i"] = SV{Term: fmt.Sprintf("(+ %s 1)", v.T), Typ: phi.Type()}
+			// rangeLen(): the length go/ssa took of the ranged slice before the loop (idx+1 < len is the loop test); a value
+			// computed in the preheader, hence fixed for the whole loop
+			for _, hi := range li.header.Instrs {
+				cmp, ok := hi.(*ssa.BinOp)
+				if !ok || cmp.Op != token.LSS {
+					continue
+				}
+				if add, ok := cmp.X.(*ssa.BinOp); ok && add.Op == token.ADD && add.X == ssa.Value(phi) {
+					if lv, ok := f.vals[cmp.Y]; ok && lv.T != "" {
+						ov["#rangelen"] = SV{Term: lv.T, Typ: phi.Type()}
+					}
+				}
+			}
 		} else if phi.Comment != "" {
 			ov[phi.Comment] = SV{Term: v.T, Typ: phi.Type()}
 		}
@@ -314,6 +341,7 @@ func (f *frame) enterLoop(li *loopInfo, in *State) *State {
 	lp := fmt.Sprintf("%s:loop%d", f.path, li.ordinal)
 	li.entryNext = in.next
 	li.preState = in.clone()
+	li.entryState = in.clone()
 	if li.spec != nil {
 		ov := f.headerPhiOverrides(li, func(phi *ssa.Phi) (Val, bool) { v, ok := entryVals[phi]; return v, ok })
 		f.seenOverride(li, in, ov)
@@ -335,6 +363,7 @@ func (f *frame) enterLoop(li *loopInfo, in *State) *State {
 		f.havocHeaps(hs, ws.Sorted())
 	}
 	f.havocNext(hs)
+	li.iterNext = hs.next
 	hs.tagLo = hs.next // ids handed out by earlier iterations: covered by the loop invariants, not by the bookkeeping
 	li.hdrVals = map[ssa.Value]Val{}
 	for _, instr := range b.Instrs {
